@@ -165,7 +165,7 @@ class C14(Prop):
 
         # a release is legitimate only after idle_timeout seconds without any activity of the run
         acts = sorted(
-            [e["t_in"] for e in log["work"]] + [e["t_out"] for e in log["work"] if e["t_out"] is not None]
+            [e["t_in"] for e in log["work"] + log.get("anon", [])] + [e["t_out"] for e in log["work"] + log.get("anon", []) if e["t_out"] is not None]
             + list(log.get("ask_in", [])) + [a["t"] for a in log.get("asked", [])] + [s_["t"] for s_ in log.get("start", [])] + list(log.get("pre_got", []))
             + ([obs["restart"]] if obs["restart"] is not None else [])
         )
@@ -182,7 +182,7 @@ class C14(Prop):
         rel_pending = sorted({k for t in obs["released"] for k in pending_at(t - 0.25)})  # the release happened at some instant of the last polling interval
         rst_pending = pending_at(obs["restart"]) if obs["restart"] is not None else []
         row = obs["row"] or {}
-        in_flight_at_restart = obs["restart"] is not None and any(e["life"] == 0 and e["exit"] == "cancelled" for e in log["work"])
+        in_flight_at_restart = obs["restart"] is not None and any(e["life"] == 0 and e["exit"] == "cancelled" for e in log["work"] + log.get("anon", []))
         # a harness send (the confirmation or the late reply) to a released run after which the run was never seen in memory again
         sends_ = [t for t in (obs.get("pre_sent"), obs["sent_reply"]) if t is not None]
         reload_failed = bool(sends_) and bool(obs["released"]) and row.get("status") == "running" and any(
